@@ -332,6 +332,19 @@ func (t *Dense) makeMask() {
 	memsetBools(t.mask, false)
 }
 
+// forgetBeforeDecode drops what a receiver carries over from its earlier use and what no decoder sets itself - a mask,
+// a pending lazy transpose, the data order, being a view: the tensor decoded into is the decoded tensor, not a mixture of
+// it and of what the receiver held before.
+func (t *Dense) forgetBeforeDecode() {
+	t.mask = nil
+	t.maskIsSoft = false
+	t.old.zeroOnly()
+	t.transposeWith = nil
+	t.viewOf = 0
+	t.AP.o = 0
+	t.AP.Δ = 0
+}
+
 // sanity is a function that sanity checks that a tensor is correct.
 func (t *Dense) sanity() error {
 	if !t.AP.IsZero() && t.Shape() == nil && t.array.Header.Raw == nil {
